@@ -19,14 +19,15 @@ git clean -fdq   # drop the demonstration files (untracked); the patch itself st
 rc_suite=skipped
 if [ -z "$skipsuite" ]; then
   echo "== existing test suite with the change (must pass)"
-  go test -vet=off -count=1 -timeout 25m ./... > "$cand/suite_with.log" 2>&1; rc_suite=$?
+  # own network namespace: tests/acceptance, tests/*_scenario listen on fixed ports that other jobs on this machine use too
+  unshare -n sh -c 'ip link set lo up && go test -vet=off -count=1 -timeout 15m ./...' > "$cand/suite_with.log" 2>&1; rc_suite=$?
   # packages that listen on fixed ports (tests/*_scenario, acceptance) collide with other runs on this machine: retry them alone
   for try in 1 2 3; do
     [ $rc_suite -eq 0 ] && break
     failed=$(grep '^FAIL[[:space:]]' "$cand/suite_with.log" | awk '{print $2}' | sort -u)
     [ -z "$failed" ] && break
     sleep $((RANDOM % 20))
-    go test -vet=off -count=1 -timeout 25m $failed > "$cand/suite_with.log" 2>&1; rc_suite=$?
+    unshare -n sh -c "ip link set lo up && go test -vet=off -count=1 -timeout 15m $failed" > "$cand/suite_with.log" 2>&1; rc_suite=$?
   done
   grep -v '^ok\|no test files' "$cand/suite_with.log" | head -10
 fi
